@@ -90,7 +90,7 @@ func c19Exec(c c19Case, x *pbt.Ctx) error {
 	if err != nil {
 		return fmt.Errorf("HARNESS: %v", err)
 	}
-	ref.Stop()
+	ref.Close()
 	base := refDB.Writes()
 	refDB2 := ck.NewCrashDB(ck.NewMemDB())
 	// best blocks the crash-free node reports between two commits of one event (one delivery can
@@ -120,7 +120,7 @@ func c19Exec(c c19Case, x *pbt.Ctx) error {
 	if err != nil {
 		return fmt.Errorf("HARNESS: crash-free run failed: %v", err)
 	}
-	defer hRef.n.Stop()
+	defer hRef.n.Close()
 	total := refDB2.Writes()
 	if len(snaps) == 0 {
 		return nil
@@ -253,17 +253,17 @@ func c19Exec(c c19Case, x *pbt.Ctx) error {
 			hx := &hist{w: w, n: n}
 			fin, ferr := hx.finalizedIdx()
 			if orphanRecord < 0 || ferr != nil || !finSeen[fin] || best < 0 || !w.IsAncestor(fin, best) {
-				n.Stop()
+				n.Close()
 				return fmt.Errorf("%s: restarted node has best block #%d, which is on none of the main chains the crash-free run had (its best blocks: %v); last finalized #%d (%v; crash-free run: %v), checkpoint record without block: #%d", where, best, keys(bestSeen), fin, ferr, keys(finSeen), orphanRecord)
 			}
 			x.Known("checkpoint-effects-stored-before-block")
 		}
 		if err := checkIndex(n, where+": after restart"); err != nil {
-			n.Stop()
+			n.Close()
 			return err
 		}
 		if err := checkLedgerAgainstModel(n, best, where+": after restart"); err != nil {
-			n.Stop()
+			n.Close()
 			return err
 		}
 		storedAtRestart := map[int]bool{}
@@ -275,11 +275,11 @@ func c19Exec(c c19Case, x *pbt.Ctx) error {
 		hh := &hist{w: w, n: n, delivered: map[int]bool{0: true}, ffg: newFFG(w), script: hRef.trace}
 		fin, err := hh.finalizedIdx()
 		if err != nil {
-			n.Stop()
+			n.Close()
 			return fmt.Errorf("%s: after restart: %v", where, err)
 		}
 		if !finSeen[fin] || !w.IsAncestor(fin, best) {
-			n.Stop()
+			n.Close()
 			return fmt.Errorf("%s: after restart the last finalized checkpoint is #%d (crash-free run: %v) and the best block is #%d", where, fin, keys(finSeen), best)
 		}
 		// (3) re-deliver everything: converge to the crash-free final state
@@ -289,7 +289,7 @@ func c19Exec(c c19Case, x *pbt.Ctx) error {
 		for kk, e := range c.Events {
 			d, err := hh.step(e)
 			if err != nil {
-				n.Stop()
+				n.Close()
 				return fmt.Errorf("%s: re-delivery event %d: %v", where, kk, err)
 			}
 			hh.desc = append(hh.desc, fmt.Sprintf("%d: %s", kk, d))
@@ -303,7 +303,7 @@ func c19Exec(c c19Case, x *pbt.Ctx) error {
 			// descendants of that checkpoint are not in casper's tree either
 			tie := got >= 0 && storedAtRestart[final.best] && (w.Blocks[got].Block.Height >= w.Blocks[final.best].Block.Height || w.IsAncestor(got, final.best))
 			if !tie {
-				n.Stop()
+				n.Close()
 				return fmt.Errorf("%s: after re-delivering all blocks and votes the best block is #%d, the crash-free run ends at #%d", where, got, final.best)
 			}
 			// known finding: the crash-free winner (by hash tie-break or by justification) was stored
@@ -316,31 +316,31 @@ func c19Exec(c c19Case, x *pbt.Ctx) error {
 			}
 			child := probeChild
 			if _, err := n.Deliver(child); err != nil || n.BestIdx() != child {
-				n.Stop()
+				n.Close()
 				return fmt.Errorf("%s: even after a further block #%d on top of the crash-free best block #%d the node stays at #%d (%v)", where, child, final.best, n.BestIdx(), err)
 			}
-			n.Stop()
+			n.Close()
 			continue
 		}
 		fin2, err := hh.finalizedIdx()
 		if err != nil || fin2 != final.fin {
-			n.Stop()
+			n.Close()
 			return fmt.Errorf("%s: after re-delivery the last finalized checkpoint is #%d (%v), the crash-free run ends with #%d", where, fin2, err, final.fin)
 		}
 		gu, gc, err := readLedger(n)
 		if err != nil {
-			n.Stop()
+			n.Close()
 			return err
 		}
 		if err := diffLedger(where+": after re-delivery the ledger differs from the crash-free run", gu, refLedgerU, gc, refLedgerC); err != nil {
-			n.Stop()
+			n.Close()
 			return err
 		}
 		if err := checkIndex(n, where+": after re-delivery"); err != nil {
-			n.Stop()
+			n.Close()
 			return err
 		}
-		n.Stop()
+		n.Close()
 	}
 	x.Class("inner-crash-points-%d+", (inner/20)*20)
 	x.Count("crash_points_executed", len(ks))
